@@ -36,6 +36,9 @@ type Reply struct {
 	// NilResp: the upstream returns (nil, nil) — a RoundTripper contract violation that net/http's own client
 	// turns into an error; to the model it is a failed origin call
 	NilResp bool `json:"nil_resp,omitempty"`
+	// UnknownLen: the upstream leaves ContentLength at -1 although the status has no body (what net/http's
+	// HTTP/2 client does for a 204 written with Flush, and what any other RoundTripper may do)
+	UnknownLen bool `json:"unknown_len,omitempty"`
 }
 
 type Fault struct {
@@ -53,7 +56,9 @@ type Op struct {
 	Hdr     Hdr     `json:"hdr,omitempty"`
 	Replies []Reply `json:"replies,omitempty"` // k-th origin call of this exchange gets Replies[min(k,len-1)]
 	Faults  []Fault `json:"faults,omitempty"`
-	Cancel  string  `json:"cancel,omitempty"` // "", "before", "after": caller context cancellation
+	Cancel  string  `json:"cancel,omitempty"` // "", "before", "after": caller context cancellation; "dl:<ns>": caller deadline; "chan-before", "chan-after": the (deprecated, still honoured) http.Request.Cancel channel closed, which is also what http.Client{Timeout} does for a RoundTripper that is not its own
+	// ReqBody: the caller's request carries a body (legal on a GET); it belongs to the caller once RoundTrip has returned
+	ReqBody string `json:"req_body,omitempty"`
 	// SetPath: after the request was built from URL, its URL.Path is set to this (a client that assigns the
 	// field, or url.URL.JoinPath on a base without a path: a path WITHOUT the leading slash)
 	SetPath string `json:"set_path,omitempty"`
